@@ -293,7 +293,12 @@ pub enum Valuation {
     Tiny,
     /// inputs and parameters from {-1, 0, 1}: ties, duplicates, exact zeros everywhere
     Dup,
+    /// subnormal single-precision data: inputs and biases are small integer multiples of 2^-140, weights multiples of
+    /// 1/4 - every product and sum is an exact multiple of 2^-149 (gradual underflow is exact)
+    Sub,
 }
+/// 2^-140
+pub const SUB_UNIT: f32 = f32::from_bits(1 << 9);
 
 pub fn input_values(v: Valuation, n: usize, seed: u64, key: &str) -> Vec<f32> {
     let mut r = Rng::new(seed, fnv(key) ^ 0x1111);
@@ -302,6 +307,7 @@ pub fn input_values(v: Valuation, n: usize, seed: u64, key: &str) -> Vec<f32> {
         Valuation::Dyadic => (0..n).map(|_| (r.below(9) as f32 - 4.0) / 2.0).collect(),
         Valuation::Tiny => (0..n).map(|_| (r.below(9) as f32 - 4.0) / 2.0 * 9.536_743e-7).collect(),
         Valuation::Dup => (0..n).map(|_| r.below(3) as f32 - 1.0).collect(),
+        Valuation::Sub => (0..n).map(|_| (r.below(9) as f32 - 4.0) * SUB_UNIT).collect(),
         Valuation::Generic => (0..n).map(|_| r.signed(0.25, 1.5)).collect(),
     }
 }
@@ -326,6 +332,7 @@ pub fn params_for(net: &Net, shapes: &[LShape], v: Valuation, seed: u64, key: &s
             .collect(),
         Valuation::Dyadic | Valuation::Tiny => (0..n).map(|_| (r.below(9) as f32 - 4.0) / 4.0).collect(),
         Valuation::Dup => (0..n).map(|_| r.below(3) as f32 - 1.0).collect(),
+        Valuation::Sub => (0..n).map(|_| if kind == "b" { (r.below(9) as f32 - 4.0) * SUB_UNIT } else { (r.below(9) as f32 - 4.0) / 4.0 }).collect(),
         Valuation::Generic => (0..n).map(|_| r.signed(0.25, 1.5)).collect(),
     })
 }
@@ -421,16 +428,16 @@ pub fn structural_input(n: usize, unit: f32, seed: u64, key: &str) -> Vec<f32> {
     (0..n).map(|_| unit * (r.below(7) as f32 - 3.0)).collect()
 }
 
-pub fn compare_out(lib: &[f32], reff: &[f64], tol: f64) -> Result<bool, String> {
-    compare_out_abs(lib, reff, tol, 0.0)
-}
-
-/// `extra` is an absolute allowance on top of tol * max|reference| (conditioning of the computation)
-pub fn compare_out_abs(lib: &[f32], reff: &[f64], tol: f64, extra: f64) -> Result<bool, String> {
+/// `extra` is an absolute allowance on top of tol * max(max|reference|, floor) (conditioning of the computation);
+/// `floor` (at most 1) is the largest magnitude among the operands and intermediates of the exact computation, so that
+/// data of scale 1e-6 is judged at its own scale and an output that cancels to near zero at the scale of its operands
+pub fn compare_out_abs(lib: &[f32], reff: &[f64], tol: f64, extra: f64, floor: f64) -> Result<bool, String> {
     if lib.len() != reff.len() {
         return Err(format!("{} elements, reference has {}", lib.len(), reff.len()));
     }
-    let scale = reff.iter().fold(1.0f64, |m, v| m.max(v.abs()));
+    let scale = reff.iter().fold(floor.min(1.0), |m, v| m.max(v.abs()));
+    // 64 quanta of gradual underflow: below 2^-126 rounding is absolute
+    let extra = extra + 64.0 * 1.401298464324817e-45;
     let mut exact = true;
     for i in 0..lib.len() {
         if !lib[i].is_finite() {
@@ -462,7 +469,8 @@ pub fn predict_vs_ref(net: &Net, params: &[P<f32>], x: &[f32], tol: f64) -> Resu
     let p64 = crate::refmodel::net::to_f64(params);
     let tr = crate::refmodel::net::forward(net, &shapes, &p64, &x64, false);
     let want = tr.activated.last().unwrap();
-    if trace_max(&tr) > 1.0e30 {
+    let floor = trace_max(&tr);
+    if floor > 1.0e30 {
         // repeated multiplication / many repetitions: the exact value is outside what f32 can hold
         return Ok(PredictOk { exact: false, nontrivial: false, lib_out: v, overflow: true });
     }
@@ -491,13 +499,13 @@ pub fn predict_vs_ref(net: &Net, params: &[P<f32>], x: &[f32], tol: f64) -> Resu
             f64::INFINITY
         }
     };
-    match compare_out_abs(&v, want, tol, extra) {
+    match compare_out_abs(&v, want, tol, extra, floor) {
         Ok(exact) => Ok(PredictOk { exact, nontrivial, lib_out: v, overflow: false }),
         Err(e) => {
             let chained = net.connects.iter().any(|(a, _)| net.connects.iter().any(|(_, b)| b == a));
             if chained {
                 let tr2 = crate::refmodel::net::forward(net, &shapes, &p64, &x64, true);
-                if let Ok(exact) = compare_out_abs(&v, tr2.activated.last().unwrap(), tol, extra) {
+                if let Ok(exact) = compare_out_abs(&v, tr2.activated.last().unwrap(), tol, extra, floor) {
                     return Ok(PredictOk { exact, nontrivial, lib_out: v, overflow: false });
                 }
             }
